@@ -169,7 +169,7 @@ MANIFEST = {
              "machine (one step per unordered pair building the symmetric matrix and the call log, breadth-first component "
              "labelling, regrouping by label) and TLC proves Impl => Req and termination for every graph on <= 5 nodes "
              "(quick) / <= 6 nodes (thorough, 33 868 graphs); every graph is then run on the real function with a logging "
-             "table-lookup comparison function answering as bool / numpy.bool_ / int, twice (distinct / identical-up-to-uuid events), plus random graphs on 7-12 "
+             "table-lookup comparison function answering as bool / numpy.bool_ / int, with events that have no geometry, twice (distinct / identical-up-to-uuid events), plus random graphs on 7-12 "
              "nodes, and TLC validates sequences and call log clause by clause."),
     "note": ("trusted: TLC, binder checks/c13.py (encoder: positions by uuid); exhaustive up to 6 nodes, sampled 7-12; the "
              "input list is assumed to hold distinct events and the comparison function to be symmetric (quantifier of the statement)"),
